@@ -255,6 +255,9 @@ func (d *driver) handle(p Pat, via string, start *xml.StartElement, typ, id stri
 		d.stray = append(d.stray, inv)
 	}
 	d.mu.Unlock()
+	if p.Err {
+		return fmt.Errorf("verif: handler %s fails", p.Tag())
+	}
 	return nil
 }
 
@@ -557,6 +560,15 @@ func (j *judge) judgeElement(e *El, full []xml.Token, rec *elemRec, written []st
 		if x.Shape == "empty" && len(x.Invoke) == 1 && kind != "iq" {
 			c.Count("empty_stanza_to_wildcard", 1)
 		}
+		if kind == "top" && isStanzaLocal(e.Local) {
+			c.Count("stanza_taken_by_toplevel_namespace_pattern", 1)
+		}
+		if e.Local == "message" && !e.NoType && e.Type != typ {
+			c.Count("message_with_undefined_type_value", 1)
+			if kind == "message" && len(x.Invoke) > 0 {
+				c.Count("message_with_undefined_type_value_handled_as_normal", 1)
+			}
+		}
 		if kind == "iq" || kind == "message" || kind == "presence" {
 			nown := 0
 			for _, n := range ownNames(kind, e.Space) {
@@ -583,6 +595,33 @@ func (j *judge) judgeElement(e *El, full []xml.Token, rec *elemRec, written []st
 		}
 	}
 
+	// --- handler errors come back out of HandleXMPP; nothing else does
+	handlerErr := false
+	for _, inv := range x.Invoke {
+		if inv.Pat.Err {
+			handlerErr = true
+		}
+	}
+	if handlerErr && j.count {
+		c.Count("elements_with_failing_handler", 1)
+		if ec == "error" {
+			c.Count("handler_error_returned_by_mux", 1)
+		} else {
+			c.Count("handler_error_not_returned_by_mux", 1)
+		}
+		for k, inv := range x.Invoke {
+			if inv.Pat.Err && k+1 < len(x.Invoke) {
+				c.Count("handlers_invoked_after_failing_handler", len(x.Invoke)-k-1)
+				if inv.Pat.Read >= 0 {
+					c.Count("handlers_invoked_after_failing_handler_that_read_part", 1)
+				}
+				break
+			}
+		}
+	}
+	if ec == "error" && handlerErr {
+		ec = "none"
+	}
 	// --- the default: an error return where nothing (or the fallback) was due
 	if ec != "none" {
 		want := "none"
@@ -1437,6 +1476,9 @@ func Prop() *core.Prop {
 		"served_sessions", "served_elements", "direct_elements",
 		"direct_memory_reader_elements", "memory_reader_last_token_delivered_with_eof", "reentrant_dispatches",
 		"concurrent_scenarios", "concurrent_dispatches", "concurrent_scenarios_with_overlapping_handlers",
+		"stanza_taken_by_toplevel_namespace_pattern", "message_with_undefined_type_value", "message_with_undefined_type_value_handled_as_normal",
+		"elements_with_failing_handler", "handler_error_returned_by_mux", "handlers_invoked_after_failing_handler",
+		"handlers_invoked_after_failing_handler_that_read_part",
 		"stanzas_with_own_name_payload_pattern", "iq_with_own_name_payload_pattern", "message_with_own_name_payload_pattern",
 		"presence_with_own_name_payload_pattern", "empty_stanza_own_name_pattern_wildcard_due", "empty_stanza_own_name_pattern_nothing_due",
 		"child_with_stanza_own_name_matched_by_pattern", "top_exact", "top_local", "top_ns", "other_nothing"}
@@ -1454,10 +1496,10 @@ func Prop() *core.Prop {
 		Race:  true,
 		Rule:  "a case is a multiplexer (stanza namespace client/server/any) with a PRNG-drawn pattern set: for one or two (kind,type) pairs a random subset of the nine names over 2 local names x 2 namespaces (4 exact, 2 local-only, 2 namespace-only, the bare wildcard), for a quarter of those pairs also 1-3 payload patterns carrying the stanza's own element name / local name / content namespace (which an empty stanza must not be matched against; 4% of children carry the stanza's own name), up to 5 patterns with the same names under other kinds/types, up to 3 top-level names; 1-3 incoming elements (stanzas of the focus pairs, of other kinds/types, in the other content namespace, non-stanza top-level elements) with 0-4 children in any order, nested children, white space, names outside the universe. Every handler is tagged with its pattern, reads a fixed number of tokens (0-7 or until EOF and beyond) and may write a marker. Each element goes through ServeMux.HandleXMPP on an element-limited reader (and 1 case in 12 also through a served session); the handlers invoked, the tokens each could read and what reached the encoder are compared with a reference lookup written from the statement. Every element is fed twice on fresh multiplexers: from an encoding/xml decoder limited to the element, and from an in-memory token reader that returns its last token together with io.EOF (the form xmlstream.Wrap / stanza.Message.Wrap / MultiReader produce). In 1 case in 5 message/presence focus pairs get a forwarding handler that hands a stanza embedded in a {urn:verif:fwd}forwarded child to the same multiplexer while its own dispatch is in progress (re-entrant dispatch; the embedded stanza is judged by the same reference, and the carrier's later handlers must still see the carrier). 1 case in 8 also dispatches its elements concurrently on one shared multiplexer, one goroutine each, after one ordinary dispatch; the first handler reached for each element waits until the others are inside a handler or done, so the dispatches overlap by construction; invocations are attributed by the id of the stanza value the handler is handed, and the children run under the race detector. 1 case in 4 also registers a duplicate, a nil handler, a nil handler function or a near-duplicate. distinct = (kind, empty/children, pattern-class mask for the first child, steps chosen, read classes, fallback).",
 		Assumptions: []string{
-			"a message without a type attribute is of type normal, a presence without one is available; elements with undefined type values are not generated",
+			"a message without a type attribute, or with a value other than the five defined ones (unknown words, wrong case, white space, empty), is of type normal (RFC 6121 5.2.2, documented on stanza.MessageType); a presence without a type is available; undefined presence and IQ type values are not generated (the library does not normalise them and the statement does not say)",
 			"a stanza whose only content is character data is not generated (the statement speaks of child payloads and of empty stanzas only)",
-			"top-level patterns are drawn from namespaces other than the stanza namespaces, so that they never compete with the stanza routers",
-			"handlers return nil; an error or panic out of HandleXMPP is therefore the multiplexer's own and is judged as a departure from the expected outcome",
+			"top-level patterns are consulted before the stanza routers (ServeMux.Handler's documented order): a namespace-only top-level pattern naming a stanza content namespace takes the stanzas of that namespace; exact and local-only stanza names cannot be registered with Handle",
+			"in one case in five a third of the handlers return an error after running their program: dispatch to the later payloads of a message/presence must go on and their handlers must still be handed the complete stanza; an error out of HandleXMPP is accepted exactly when an invoked handler returned one (whether it is returned is counted, not judged); any other error or panic is the multiplexer's own",
 			"for IQ handlers only the tokens of the payload itself are demanded; reading on to later siblings or the IQ end element is allowed",
 			"in served mode the session itself answers get/set IQs whose handler wrote no reply; exactly one service-unavailable reply per get/set IQ is expected there",
 		},
